@@ -244,11 +244,12 @@ func CSVProducer(opts ...CSVOpt) Producer {
 			})
 
 			pipe.Go(func() error {
-				defer func() {
-					_ = r.Close()
-				}()
+				err := pipeCSV(csvWriter, csvReader, o)
+				// a WriteTo still writing must fail with the reason why reading stopped,
+				// not with a bare "closed pipe" that could be reported in its place
+				_ = r.CloseWithError(err)
 
-				return pipeCSV(csvWriter, csvReader, o)
+				return err
 			})
 
 			return pipe.Wait()
